@@ -770,8 +770,7 @@ def model_part(ctx: vlib.Ctx):
         probe = r.random() < 0.3
         tbl, root = G.gen_case(r, r.choice([1, 2, 2, 3, 3]), probe)
         if M.uses_generic(root, tbl):
-            ctx.hist("model_skipped", "generic-dataclass")
-            continue
+            ctx.hist("model_cases", "generic-dataclass")
         src = G.module_src(tbl, root)
         if len(src) > 12000:
             ctx.hist("model_skipped", "program-too-large")
@@ -789,9 +788,11 @@ def model_part(ctx: vlib.Ctx):
                 ctx.hist("model_skipped", "unsupported:" + type(e).__name__)
                 continue
             em = M.Emitter(tbl, m.__dict__)
-            clash = M.has_name_clash(tbl)
             try:
-                env_t, ty_t = em.env(), em.ty(root)
+                ty_t = em.ty(root)
+                env_t = em.env()
+                gen_names = [t[1] for t in em.specs.values()]
+                clash = M.has_name_clash(tbl) or len(set(gen_names)) < len(gen_names)   # G[int] and G[str] share the name G
                 combos = []
                 for (dl, ar), s in real.items():
                     pre = "#/$defs" if dl == "DRAFT_2020_12" else "#/components/schemas"
